@@ -150,6 +150,19 @@ def deep_agree(f, m, out, where, idxs=None):
         hi = frame.Frame(w, n ^ (1 << (w - 1)))
         if f == hi or not (f != hi):
             out.append(("C05:equality", "%s: equal to a frame differing in the top bit" % where))
+        # "equality means same width and same bits": the subclass and the received-with-error flag do not enter
+        same = [frame.Frame(w, n), frame.ForwardFrame(w, n)]
+        if w == 8:
+            same += [frame.BackwardFrame(n), frame.BackwardFrameError(n)]
+        for g in same:
+            for a, b in ((f, g), (g, f)):
+                if not (a == b) or (a != b):
+                    out.append(("C05:equality:across-frame-classes", "%s: %s(%d, %#x) vs %s with the same width and bits: == is %r, != is %r"
+                                % (where, type(a).__name__, w, n, type(b).__name__, a == b, a != b)))
+        if w == 8:
+            e = frame.BackwardFrameError(n ^ 1)
+            if f == e or not (f != e):
+                out.append(("C05:equality", "%s: equal to a BackwardFrameError differing in bit 0" % where))
         if f == n or not (f != n) or f == None or not (f != None):  # noqa: E711
             out.append(("C05:equality", "%s: equal to a non-frame" % where))
         if (True in f) != any(m.bits) or (False in f) != (not all(m.bits)):
